@@ -21,6 +21,7 @@ def runs(tier):
         ("G(6) x U, double", [["--n", 6, "--alpha", "U"]]),
         ("blob grammar K=3,T=2 x patterns U, M2, M3", [["--grammar", "blobs:3:2", "--alpha", a] for a in ("U", "M2", "M3")]),
         ("dense families x U", [["--families", "K:6,K:7,wheel:6,prism:4,petersen,Kb:3:4,grid:3:4,cube:3", "--alpha", "U"]]),
+        ("G(6) x A2, graphs with >= 12 edges, mcb_sva_signed (support vectors with several entries: hidden-edge heuristic)", [["--n", 6, "--alpha", "A2", "--min-m", 12, "--variants", "signed"]]),
     ]
     if tier == "quick":
         return q
